@@ -359,6 +359,9 @@ func (n *CNode) writeOnce(db string, tx pager.WalTx) (WriteResult, error) {
 		} else {
 			wr.TxResult, wr.Err = st.conn.ExecWALTx(tx)
 		}
+	} else if st.model.Img.N() > 0 && st.model.Img.Page(1)[18] == 2 {
+		// the database is in WAL format (it was imported that way): PRAGMA journal_mode=<rollback mode>
+		wr.TxResult, wr.Err = st.conn.SwitchToRollback(tx.Tx)
 	} else {
 		wr.TxResult, wr.Err = st.conn.ExecRollbackTx(tx.Tx)
 	}
